@@ -119,8 +119,23 @@ mutual
           | some (kvs, r3) => some ((k, v) :: kvs, r3)
 end
 
-/-- decode exactly one item from the front -/
-def decode1 (bs : Bytes) : Option (Item × Bytes) := decode (bs.length + 1) bs
+/-- decode exactly one item from the front (an array level costs two units of fuel: the item and its element list) -/
+def decode1 (bs : Bytes) : Option (Item × Bytes) := decode (2 * bs.length + 2) bs
+
+mutual
+  /-- container nesting of an item (ciborium refuses more than 256 levels) -/
+  def Item.depth : Item → Nat
+    | .array xs => 1 + depthList xs
+    | .map kvs => 1 + depthPairs kvs
+    | .tag _ x => 1 + x.depth
+    | _ => 0
+  def depthList : List Item → Nat
+    | [] => 0
+    | x :: xs => max x.depth (depthList xs)
+  def depthPairs : List (Item × Item) → Nat
+    | [] => 0
+    | (k, v) :: kvs => max (max k.depth v.depth) (depthPairs kvs)
+end
 
 /-- length of the first well-formed item -/
 def skip (bs : Bytes) : Option Nat := (decode1 bs).map (fun (_, r) => bs.length - r.length)
